@@ -122,6 +122,18 @@ def pre (e : DEnv S) (storeAll : Bool) (N : Nat) (start : Option (Nat → Nat)) 
   | none => fun r => { s := s0 r, acts := [], recs := [] }
   | some f => fun r => { s := e.step (s0 r) (f r), acts := [f r], recs := [forcedRec storeAll N] }
 
+/-- Which start rule a pre-decoder hook applies when no custom `select_start_nodes_fn` is given: the
+environment's own `env.select_start_nodes` (possibly overridden: PDP pickups only, OP feasible nodes, MTVRP …)
+or the generic helper of `utils/ops.py`.  `fromEnv` is extracted (`Params.preStartFromEnvRule` for
+`DecodingStrategy`, `Params.beamStartFromEnvRule` for `BeamSearch`). -/
+def hookStart (fromEnv : Bool) (envRule generic : Nat → Nat) : Nat → Nat :=
+  if fromEnv then envRule else generic
+
+/-- the forced start nodes of multi-start decoding -/
+def preStartRule (envRule generic : Nat → Nat) : Nat → Nat := hookStart Params.preStartFromEnvRule envRule generic
+/-- the forced start nodes of beam search -/
+def beamStartRule (envRule generic : Nat → Nat) : Nat → Nat := hookStart Params.beamStartFromEnvRule envRule generic
+
 /-- One pass through the body of the `while` loop of `ConstructivePolicy.forward` for one row:
 `logits, mask = decoder(td)`; `td = decode_strategy.step(...)`; `td = env.step(td)["next"]`.
 `π st.s` is the processed log-prob row of the row, `choose row` the selected action. -/
@@ -203,6 +215,30 @@ def post (B : Nat) (sb : Option (Nat → Nat)) (b : Nat → RowSt S) : Nat → R
 def ppoRatio (ex : Int → Int) (llNew : List LP) (llOld : LP) : LP :=
   match lpSum llNew, llOld with
   | some a, some b => some (ex (if Params.ppoRatioNewMinusOld then a - b else b - a))
+  | _, _ => none
+
+/-! ### stepwise PPO policies (`L2DPolicy4PPO.act` / `.evaluate`, the entry points of `StepwisePPO`)
+
+One decoding step per call.  `proc opts s` is the processed step distribution of state `s` as a function of the
+option arguments the call hands to `process_logits` (an oracle: the network and `process_logits` itself are
+C10's / uninterpreted); the option argument lists of the two call sites are extracted from the source
+(`Params.stepwiseActOpts`, `Params.stepwiseEvalOpts`). -/
+
+/-- `act(td, env, phase="train")` for one row: the stored `td["logprobs"] = gather_by_index(logprobs, action)` -/
+def stepwiseAct (proc : List String → S → Row) (s : S) (a : Nat) : LP :=
+  gather (proc Params.stepwiseActOpts s) a
+
+/-- the distribution `act` samples from -/
+def stepwiseActRow (proc : List String → S → Row) (s : S) : Row := proc Params.stepwiseActOpts s
+
+/-- `evaluate(td)` for one row: `action_logprobs` and the distribution whose entropy is returned -/
+def stepwiseEvaluate (proc : List String → S → Row) (s : S) (a : Nat) : LP × Row :=
+  (gather (proc Params.stepwiseEvalOpts s) a, proc Params.stepwiseEvalOpts s)
+
+/-- `StepwisePPO.update`: `ratios = torch.exp(logprobs - previous_logp)` -/
+def stepwiseRatio (ex : Int → Int) (new old : LP) : LP :=
+  match new, old with
+  | some a, some b => some (ex (if Params.stepwiseRatioNewMinusOld then a - b else b - a))
   | _, _ => none
 
 end Rl4co.Decode
